@@ -112,7 +112,9 @@ Match(r, e, prevErr) ==
     \* C10: presentation requests only
     /\ ("pres" \in Focus) =>
           \* (a presentation request the application sends itself is its own message, not a request of the controller)
-          SelectSeq(MsgsOf(e.wr), IsPresW) = SelectSeq(r.react, IsPresW) \o r.pres
+          \* (... nor is one the application sent earlier to a sleeping node and that is released at this wake)
+          SelectSeq(MsgsOf(e.wr), LAMBDA m : IsPresW(m) /\ m \notin r.rel /\ m \notin r.relFail)
+             = SelectSeq(SelectSeq(r.react, IsPresW) \o r.pres, LAMBDA m : m \notin r.rel /\ m \notin r.relFail)
     \* C11
     /\ ("ids" \in Focus) =>
           /\ "id" \notin r.viol
